@@ -14,11 +14,11 @@ ops
 State: the elements of the last `write` and the blocks the implementation wrote (re-synchronised from
 its answer), so the reader model runs on the blocks that are really in the file.
 
-Property predicate (`read`): there is an assignment of the file's blocks (block sizes = those of the
-model writer, a function of the input: maximal runs of one element type cut at 8000) to goroutines such
-that every goroutine's stream is the concatenation of its blocks in file order, every element equal to
-the written one except that node coordinates may differ by less than one granularity step (100
-nano-degrees); for one goroutine this is: the same elements in the same order.
+Property predicate (`read`): there is an assignment of the file's blocks (the input cut at the element
+counts of the blocks that are really in the file) to goroutines such that every goroutine's stream is the
+concatenation of its blocks in file order, every element equal to the written one except that node
+coordinates may differ by at most one granularity step (100 nano-degrees); for one goroutine this is: the
+same elements in the same order.
 -/
 open B6.Driver B6.Model.Pbf B6.Driver.PbfTokens
 namespace B6.Driver.C27
@@ -27,9 +27,10 @@ namespace B6.Driver.C27
 
 def natAbsDiff (a b : Int64) : Nat := (a.toInt - b.toInt).natAbs
 
-/-- same element, node coordinates less than one granularity step (100 nano-degrees) apart -/
+/-- same element, node coordinates at most one granularity step (100 nano-degrees) apart (the theorem
+`coord_within_step` gives strictly less for the code as it is) -/
 def eqTol : Element → Element → Bool
-  | .node i la lo ts, .node i' la' lo' ts' => i == i' && ts == ts' && natAbsDiff la la' < 100 && natAbsDiff lo lo' < 100
+  | .node i la lo ts, .node i' la' lo' ts' => i == i' && ts == ts' && natAbsDiff la la' ≤ 100 && natAbsDiff lo lo' ≤ 100
   | a, b => a == b
 
 def isPrefixBy {α : Type} (eq : α → α → Bool) : List α → List α → Bool
@@ -65,8 +66,13 @@ structure St where
   modelChunks : Option (List (List Element)) := none
 
 def mkSt (es : List Element) (model impl : List Block) : St :=
-  let lens := model.map fun b => (readBlock {} b).out.length
   let rs := impl.map (readBlock {})
+  -- the property does not say where the file is cut into blocks: the cut is taken from the blocks that
+  -- are in the file (element count of each, by the reader model); when they do not cover the input, from
+  -- the model writer's blocks
+  let implLens := rs.map (·.out.length)
+  let modelLens := model.map fun b => (readBlock {} b).out.length
+  let lens := if implLens.sum == es.length then implLens else modelLens
   { elems := es, blocks := impl,
     specChunks := if lens.sum == es.length then some (splitBy lens es) else none,
     modelChunks := if rs.all (fun r => r.fail.isNone) then some (rs.map (·.out)) else none }
